@@ -338,7 +338,7 @@ class Simulator(EventProducer, SimulatorInterface, Generic[TIME]):
         self._run_state = RunState.NOT_INITIALIZED
         self._replication_state = ReplicationState.NOT_INITIALIZED
     
-    def _start_impl(self):
+    def _start_impl(self, run_until_time, run_until_including: bool):
         """Implementation of the start method. Checks preconditions for 
         running and fires the right events."""
         if self.is_starting_or_running():
@@ -352,6 +352,8 @@ class Simulator(EventProducer, SimulatorInterface, Generic[TIME]):
             raise DSOLError("replication state not INITIALIZED or STARTED")
         if self._simulator_time >= self._replication.end_sim_time:
             raise DSOLError("cannot start: simulator_time > run length")
+        self._run_until_time = run_until_time
+        self._run_until_including = run_until_including
         self._run_state = RunState.STARTING
         if self._replication_state == ReplicationState.INITIALIZED:
             self.fire_timed(self._simulator_time,
@@ -374,9 +376,7 @@ class Simulator(EventProducer, SimulatorInterface, Generic[TIME]):
         replication when starting the simulator."""
         if self._replication == None:
             raise DSOLError("no replication details")
-        self._run_until_time = self._replication.end_sim_time
-        self._run_until_including = True
-        self._start_impl()
+        self._start_impl(self._replication.end_sim_time, True)
      
     @abstractmethod
     def _step_impl(self):
@@ -441,17 +441,13 @@ class Simulator(EventProducer, SimulatorInterface, Generic[TIME]):
         """Runs the simulator up to a certain time; any events at that time, 
         or the solving of the differential equation at that timestep, 
         will not yet be executed."""
-        self._run_until_time = stop_time
-        self._run_until_including = False
-        self._start_impl()
+        self._start_impl(stop_time, False)
         
     def run_up_to_including(self, stop_time: TIME):
         """Runs the simulator up to a certain time; all events at that time, 
         or the solving of the differential equation at that timestep, 
         will be executed."""
-        self._run_until_time = stop_time
-        self._run_until_including = True
-        self._start_impl()
+        self._start_impl(stop_time, True)
     
     def warmup(self):
         self.fire_timed(self.simulator_time,
